@@ -248,7 +248,7 @@ SlotPure(S) ==
     \A i \in DOMAIN S.pool :
        LET sl == S.pool[i] IN
          /\ \A j \in 1..sl.size : RoundOf(S, sl.arr[j].id) = sl.num
-         /\ \A j1, j2 \in 1..sl.size : sl.arr[j1].id = sl.arr[j2].id => j1 = j2
+         /\ Cardinality(Ids(sl)) = sl.size
          /\ i = (sl.num - S.h0) % K
          /\ \A j \in 1..sl.size : /\ Len(sl.arr[j].peers) \in 1..PeerLimit
                                   /\ \A a, b \in DOMAIN sl.arr[j].peers :
